@@ -33,3 +33,9 @@ Definition run_slice (s : str) (sl sc al ac bl bc : nat) : string :=
               (slice t (mkPos al ac) (mkPos bl bc)).
 
 Definition run_cb (l : str) : string := show_bool (is_comment_or_blank l).
+
+(* string_literals() over the abstract AST built by the harness (Text/StrLits.v) *)
+From Verif Require Import Text.StrLits.
+Definition run_strlits (fuel : nat) (root : anode) : string :=
+  show_obj [("ordered", show_bool (ordered fuel root));
+            ("lits", show_option (show_list (fun n => show_pos (a_start n))) (string_literals fuel root))].
